@@ -195,6 +195,9 @@ pub struct Ctx {
     pub nshards: u64,
     /// Optional literal case handed in by `--case` (replay of one case).
     pub case: Option<Value>,
+    /// Path of the result file; `<out_path>.crumb` may be used for breadcrumbs
+    /// (the driver attaches its tail to a "process died" violation).
+    pub out_path: Option<String>,
     pub evaluations: u64,
     signatures: HashSet<u64>,
     sig_examples: BTreeMap<String, u64>,
@@ -219,6 +222,7 @@ impl Ctx {
             shard,
             nshards,
             case: None,
+            out_path: None,
             evaluations: 0,
             signatures: HashSet::new(),
             sig_examples: BTreeMap::new(),
@@ -372,6 +376,14 @@ impl Ctx {
                 "hook H1 saw a resource chain violating the chain invariant",
                 json!({"kinds": kinds, "context": context()}),
             );
+        }
+    }
+
+    /// Overwrites the breadcrumb file with `text` (what is about to be
+    /// evaluated), so that a shard that dies leaves the culprit behind.
+    pub fn breadcrumb(&self, text: &str) {
+        if let Some(p) = &self.out_path {
+            let _ = std::fs::write(format!("{}.crumb", p), text);
         }
     }
 
